@@ -232,6 +232,8 @@ fn run(ctx: &Ctx) {
             l.label("calibration:no-poll");
         }
         let mut ks: Vec<u64> = (0..=p.min(64)).collect();
+        // the last instants: a flip after the sieve's last poll lands in the linear algebra / the cofactor loop
+        ks.extend(p.saturating_sub(6)..=p);
         for _ in 0..16 {
             if p > 64 {
                 ks.push(65 + rng.below(p - 64));
